@@ -520,25 +520,25 @@ def check_framing(ctx):
             if isinstance(x, ast.Subscript) and isinstance(x.slice, ast.Slice):
                 sl = x
         rng = A.expand(gen.iter, defs)
-        # count expression: range(int(len(raw)/C)) or range(len(raw)//C)
-        cnt_ok = False
-        if isinstance(rng, ast.Call) and dotted(rng.func) == "range" and len(rng.args) == 1 and not gen.ifs:
-            cexpr = rng.args[0]
+        # the chunks are evaluated for several input lengths, whatever the loop counts (command index or byte offset):
+        # for len(data) = k * COMMAND_BYTES they must be data[0:C], data[C:2C], ... data[(k-1)C:kC], in that order
+        cnt_ok = ch_ok = False
+        if isinstance(rng, ast.Call) and dotted(rng.func) == "range" and 1 <= len(rng.args) <= 3 and not gen.ifs and sl is not None and ivar:
+            sl_lo = A.expand(sl.slice.lower, defs) if sl.slice.lower is not None else None
+            sl_hi = A.expand(sl.slice.upper, defs) if sl.slice.upper is not None else None
             try:
-                vals = []
-                for L in (0, CB, 3 * CB, 10 * CB):
-                    vals.append(_eval_with_len(ev, dm, cexpr, L))
-                cnt_ok = vals == [0, 1, 3, 10]
-            except Unknown:
-                cnt_ok = False
+                cnt_ok = ch_ok = True
+                for k in (0, 1, 3, 10):
+                    L = k * CB
+                    idx = list(range(*[_eval_with_len(ev, dm, a_, L) for a_ in rng.args]))
+                    if len(idx) != k:
+                        cnt_ok = False
+                    b = [((_eval_with_len_env(ev, dm, sl_lo, L, {ivar: i}) if sl_lo is not None else 0), (_eval_with_len_env(ev, dm, sl_hi, L, {ivar: i}) if sl_hi is not None else L)) for i in idx]
+                    if b != [(j * CB, (j + 1) * CB) for j in range(len(idx))] or sl.slice.step is not None:
+                        ch_ok = False
+            except (Unknown, TypeError, ValueError):
+                cnt_ok = ch_ok = False
         ctx.check("C01.F", "Deserializer.deserialize_subroutine:chunk-count", cnt_ok, f"number of chunks {src(gen.iter)} is not len(data)/COMMAND_BYTES", des.loc(dsub))
-        ch_ok = False
-        if sl is not None and ivar:
-            try:
-                b = [(ev.eval(sl.slice.lower, dm, {ivar: i}) if sl.slice.lower else 0, ev.eval(sl.slice.upper, dm, {ivar: i})) for i in range(4)]
-                ch_ok = b == [(i * CB, (i + 1) * CB) for i in range(4)] and sl.slice.step is None
-            except Unknown:
-                ch_ok = False
         ctx.check("C01.F", "Deserializer.deserialize_subroutine:chunk-bounds", ch_ok,
                   f"chunk i is not data[i*{CB}:(i+1)*{CB}]: {src(sl) if sl is not None else None}", des.loc(dsub), sample={"chunk": src(sl) if sl is not None else None})
     # Subroutine(...) kwargs
@@ -605,6 +605,25 @@ def _eval_with_len(ev, m, expr, L):
             if dotted(node.func) == "len":
                 return ast.Constant(value=L)
             return self.generic_visit(node)
+
+    import copy
+
+    e = R().visit(copy.deepcopy(expr))
+    ast.fix_missing_locations(e)
+    return ev.eval(e, m)
+
+
+def _eval_with_len_env(ev, m, expr, L, env):
+    """as _eval_with_len, with values for local names"""
+
+    class R(ast.NodeTransformer):
+        def visit_Call(self, node):
+            if dotted(node.func) == "len":
+                return ast.Constant(value=L)
+            return self.generic_visit(node)
+
+        def visit_Name(self, node):
+            return ast.Constant(value=env[node.id]) if node.id in env else node
 
     import copy
 
